@@ -1,4 +1,4 @@
-"""PROTOTYPE: one grid, four oracles (C01 parse, C02 scope, C03 patch, C07 fixed point)."""
+"""One grid, four oracles (C01 parse, C02 scope, C03 patch, C07 fixed point)."""
 import base64, collections, hashlib, json, os, random, sys, time
 from vf import corpus, gen, oracles as O
 from vf.pool import Pool
@@ -18,7 +18,11 @@ def variants(src, contexts, imports, layouts):
             except Exception: s2 = None
             if s2 is None: continue
             for l in layouts:
-                try: out.append(((c, imp, l), gen.layout(s2, l)))
+                try:
+                    if l in gen.CALL_LAYOUTS:
+                        s3 = gen.CALL_LAYOUTS[l](s2)
+                        if s3 is not None: out.append(((c, imp, l), s3.encode("utf-8")))
+                    else: out.append(((c, imp, l), gen.layout(s2, l)))
                 except Exception: pass
     return out
 
@@ -28,9 +32,9 @@ def plan(tier, seed):
     by = collections.defaultdict(list)
     for r in recs: by[r["codemod"]].append(r)
     if tier == "quick":
-        per, ctxs, imps, lays = 6, ("module", "def", "nested"), ("plain", "alias"), ("lf", "crlf", "bom")
+        per, ctxs, imps, lays = 6, ("module", "def", "nested"), ("plain", "alias"), ("lf", "crlf", "bom", "exploded", "trailing-comma", "semicolon")
     else:
-        per, ctxs, imps, lays = 10**6, ("module", "def", "async", "method", "nested", "prelude"), ("plain", "alias", "from"), ("lf", "crlf", "nonl", "bom", "tabs", "unicode")
+        per, ctxs, imps, lays = 10**6, ("module", "def", "async", "method", "nested", "prelude"), ("plain", "alias", "from"), ("lf", "crlf", "nonl", "bom", "tabs", "unicode", "exploded", "exploded-comments", "trailing-comma", "semicolon", "backslash", "formfeed")
     jobs = []
     for cid, rs in sorted(by.items()):
         rs = sorted(rs, key=lambda r: hashlib.sha1(r["input"].encode()).hexdigest())
